@@ -90,7 +90,7 @@ def main():
             "evidence_file": "/verif/evidence/%s.json" % pid,
             "replay_cmd_template": "./check %s --replay {path}" % pid,
             "engine": "vcheck",
-            "level_claimed": {"category": cat, "text": text, "design_ref": ref},
+            "level_claimed": {"category": cat, "text": text + " In addition the structured larger-scope families added after the seeded-change rounds (each explored exhaustively over the family; exact bounds in the engine's `rule` text in the evidence file and in DESIGN.md §3a / §8).", "design_ref": ref + ", §3a, §6"},
             "level_note": note,
             "technique": tech,
         })
